@@ -72,6 +72,14 @@ def _lazy(module, fn, prop):
     return unit
 
 
+def _lazy_list(module, fn, prop, k):
+    def unit(tier, known):
+        import importlib
+        return getattr(importlib.import_module(module), fn)(prop)[k](tier, known)
+    unit.__name__ = f"{fn}[{k}]"
+    return unit
+
+
 def _scales(prop):
     from contracts import scales
     return scales.unit_scales(prop)
@@ -211,7 +219,8 @@ UNITS = {
     "C05": [unit_tri("C05", "init"), unit_tri("C05", "truncated")],
     "C06": [unit_tri("C06", "truncated")],
     "C14": [unit_torch_stft("C14")],
-    "C09": [unit_torch_stft("C09")],
+    "C09": [unit_torch_stft("C09")] + [_lazy_list("contracts.cli", "units", "C09", k) for k in range(2)],
+    "C10": [_lazy_list("contracts.cli", "units", "C10", k) for k in range(3)],
     "C19": [_scales("C19")],
     "C02": [unit_stft_frame("C02"), unit_stft("C02", "full"), unit_tri("C02", "init"), unit_tri("C02", "truncated")],
     "C01": [unit_stft("C01", "finalize"), unit_stft("C01", "chunk"), unit_fbf("C01")],
